@@ -228,7 +228,9 @@ theorem getElem?_snoc_of {α : Type} {l : List α} {a x : α} {p : Nat} (h : l[p
     (l ++ [a])[p]? = some x := by
   rw [List.getElem?_append_left (List.getElem?_eq_some_iff.mp h).1]; exact h
 
-theorem pendInv_step {cfg : Cfg} (wf : cfg.WellFormed) {h : HState} {u : Use} {h' : HState}
+theorem pendInv_step {cfg : Cfg} (hdis : Disjoint cfg.table)
+    (hkeys : ∀ d ∈ cfg.args, ∀ c ∈ d.constraints, ∀ k ∈ c.2, ∃ j, Names cfg k j)
+    {h : HState} {u : Use} {h' : HState}
     (a : PendInv cfg h) (e : applyUse cfg h u = .ok h') : PendInv cfg h' := by
   obtain ⟨d, pend, cnt, st', s⟩ := applyUse_ok e
   have hdmem : d ∈ cfg.args := List.mem_of_getElem? s.arg
@@ -250,7 +252,7 @@ theorem pendInv_step {cfg : Cfg} (wf : cfg.WellFormed) {h : HState} {u : Use} {h
     rw [s.pending'] at hx
     rcases activate_origin _ _ _ hx with hx | ⟨c, hc, h1, _⟩
     · exact a.named x (hsub x hx)
-    · exact wf.argKeys d hdmem c hc x.1 h1
+    · exact hkeys d hdmem c hc x.1 h1
   -- the constraints of the argument used now are represented afterwards
   have hnew : ∀ (ct : CType) (ks : List Key), (ct, ks) ∈ d.constraints → ∀ k ∈ ks,
       ∃ k', (k', ct) ∈ h'.pending ∧ SameTarget cfg k' k := by
@@ -264,8 +266,8 @@ theorem pendInv_step {cfg : Cfg} (wf : cfg.WellFormed) {h : HState} {u : Use} {h
     rcases h2 with rfl | h2
     · exact SameTarget.refl _ _
     · obtain ⟨j, hj⟩ := hnamed _ hx
-      obtain ⟨j', hj'⟩ := wf.argKeys d hdmem _ hc k hk
-      exact sameTarget_of_eq wf.disjoint hj hj' h2
+      obtain ⟨j', hj'⟩ := hkeys d hdmem _ hc k hk
+      exact sameTarget_of_eq hdis hj hj' h2
   refine ⟨hnamed, ?_, ?_, ?_⟩
   · intro w hw dw hdw ks hc k hk
     rw [s.uses'] at hw
